@@ -11,11 +11,12 @@ def fid? (s : String) : Option Nat := if s.startsWith "f" then (s.drop 1).toNat?
 def hkind? : String → Option HKind
   | "tcp" => some .tcp | "udp" => some .udp | "unix" => some .pipe | _ => none
 
-def container? (s : String) : Option (Option (Sum Nat Nat)) :=
-  if s = "i" || s = "-" then some none
+def container? (s : String) : Option Cont :=
+  if s = "i" || s = "-" then some .ignore
+  else if s.startsWith "s" then ((s.drop 1).toNat?).map .stream
   else match hid? s, fid? s with
-    | some h, _ => some (some (.inl h))
-    | _, some f => some (some (.inr f))
+    | some h, _ => some (.pipe h)
+    | _, some f => some (.fd f)
     | _, _ => none
 
 def parseOp : List String → Option Op
@@ -56,7 +57,7 @@ def parseOp : List String → Option Op
       let b ← container? c2
       let c ← container? c3
       let ok ← if prog = "ok" then some true else if prog = "missing" then some false else none
-      some (.spawn ok ([a, none, b] ++ (if c3 = "-" then [] else [c])))
+      some (.spawn ok ([a, .ignore, b] ++ (if c3 = "-" then [] else [c])))
   | ["end"] => some .end_
   | _ => none
 
